@@ -41,6 +41,12 @@ ASSUMPTIONS = [
     "does not depend on how points exactly on a block boundary are attributed",
     "the dummy block is tall enough for the whole history (histories are cut before a step the model predicts to "
     "exhaust it); liners and unshaped components are outside the domain (armi documents them as unsupported)",
+    "part core_mesh drives AxialExpansionChanger.manageCoreMesh with a minimal stand-in for r.core (refAssem, "
+    "getAssemblies, updateAxialMesh, p.axialMesh) around real assemblies; its mass clauses are the documented rules of "
+    "Assembly.setBlockMesh(conserveMassFlag='auto')",
+    "linkage rules other than the stock one are installed through the documented override hook "
+    "AssemblyAxialLinkage.areAxiallyLinked from a changer subclass; the reference model applies the same rule; rules that "
+    "would be ambiguous on an assembly (documented RuntimeError) fall back to the stock rule",
     "the known-finding shape is recognised only when the model derives a non-zero offset of the target's lower link "
     "from the step's growth factors AND the observed mass ratio equals the model's column-stacking prediction to "
     "1e-9; any other target-mass change is reported under c12/target-mass/not-conserved",
@@ -81,6 +87,8 @@ def _step(kinds, modes):
             # when the column-stacking model predicts a negative block height for the drawn growth, apply it anyway
             # and expect armi's refusal (ArithmeticError)
             "probe": st.sampled_from([False, False, True]),
+            # before the change: re-determine the target of a block through ExpansionData.determineTargetComponent
+            "retarget": st.one_of(st.none(), st.none(), st.none(), st.tuples(st.integers(0, 10), st.integers(0, 5)).map(list)),
         }
     )
 
@@ -90,6 +98,8 @@ def main_strategy(tier):
     return st.fixed_dictionaries(
         {
             "asm": gen.asm_spec(),
+            # linkage rule installed through the override hook of AssemblyAxialLinkage (None = stock class)
+            "hook": st.sampled_from([None, None, None, None, "name", "never", "ignore-mult"]),
             "detailed": st.booleans(),
             "steps": st.lists(step, min_size=1, max_size=MAX_STEPS),
         }
@@ -114,10 +124,11 @@ def known_strategy(tier):
 class Model:
     """The generator's description of the assembly plus per-step predictions."""
 
-    def __init__(self, blocks):
+    def __init__(self, blocks, rule="stock"):
         self.blocks = blocks
+        self.rule = rule
         self.nb = len(blocks) - 1  # blocks below the dummy
-        self.links = gen.model_links(blocks)
+        self.links = gen.model_links(blocks, rule)
         self.solids = [[c["name"] for c in b["comps"] if c["solid"]] for b in blocks]
         self.targets = [b["target"] for b in blocks]
 
@@ -192,6 +203,54 @@ def _nd_scaled(new, old, factor, rel=REL):
 
 
 # --------------------------------------------------------------------------------------------
+# a project linkage rule installed through the documented override hook
+
+_HOOKED = {}
+
+
+def _hooked_changer(rule):
+    """AxialExpansionChanger subclass whose linkage class overrides AssemblyAxialLinkage.areAxiallyLinked
+    ("provided to allow subclasses the ability to override the linkage check") with the generated ``rule``."""
+    if rule in _HOOKED:
+        return _HOOKED[rule]
+    from armi.materials import material
+    from armi.reactor.components import UnshapedComponent
+    from armi.reactor.converters.axialExpansionChanger import AxialExpansionChanger
+    from armi.reactor.converters.axialExpansionChanger.assemblyAxialLinkage import AssemblyAxialLinkage
+
+    def solid(c):
+        return not isinstance(c.material, material.Fluid)
+
+    def by_name(a, b):
+        return solid(a) and solid(b) and a.name == b.name
+
+    def never(a, b):
+        return False
+
+    def ignore_mult(a, b):
+        if not (solid(a) and solid(b)) or type(a) is not type(b) or isinstance(a, UnshapedComponent):
+            return False
+        inner = max(a.getCircleInnerDiameter(cold=True), b.getCircleInnerDiameter(cold=True))
+        outer = min(a.getBoundingCircleOuterDiameter(cold=True), b.getBoundingCircleOuterDiameter(cold=True))
+        return inner < outer
+
+    fn = {"name": by_name, "never": never, "ignore-mult": ignore_mult}[rule]
+
+    class ProjectLinkage(AssemblyAxialLinkage):
+        @staticmethod
+        def areAxiallyLinked(componentA, componentB):
+            return fn(componentA, componentB)
+
+    class ProjectChanger(AxialExpansionChanger):
+        def setAssembly(self, a, setFuel=True, expandFromTinputToThot=False):
+            super().setAssembly(a, setFuel, expandFromTinputToThot)
+            self.linked = ProjectLinkage(a)
+
+    _HOOKED[rule] = ProjectChanger
+    return ProjectChanger
+
+
+# --------------------------------------------------------------------------------------------
 # the interpreter
 
 
@@ -203,10 +262,13 @@ class Run:
         self.case = case
         self.exclude = exclude
         self.blocks = gen.layout(case["asm"])
-        self.model = Model(self.blocks)
+        self.rule = case.get("hook") or "stock"
+        if self.rule != "stock" and gen.ambiguous(self.blocks, self.rule):
+            self.rule = "stock"  # the generated rule would be ambiguous on this assembly (documented RuntimeError)
+        self.model = Model(self.blocks, self.rule)
         self.a = gen.build(case["asm"], self.blocks)
-        self.Changer = AxialExpansionChanger
-        self.changer = AxialExpansionChanger(detailedAxialExpansion=case["detailed"])
+        self.Changer = AxialExpansionChanger if self.rule == "stock" else _hooked_changer(self.rule)
+        self.changer = self.Changer(detailedAxialExpansion=case["detailed"])
         self.L0 = float(self.a.getTotalHeight())
         self.tol = 1e-10 * self.L0
         self.applied = 0
@@ -536,12 +598,33 @@ class Run:
         a.reestablishBlockOrder()
         a.calculateZCoords()
         self.blocks[i], self.blocks[j] = self.blocks[j], self.blocks[i]
-        self.model = Model(self.blocks)
+        self.model = Model(self.blocks, self.rule)
         self.sw = None  # the block order changed: a step-wise caller has to call setAssembly again
         if a[i] is not bj or a[j] is not bi or len(a) != nb + 1:
             raise AssertionError("C12 harness: block swap did not produce the intended order")
         self.out.label("swap:adjacent" if j == i + 1 else "swap:distant")
         self.swaps += 1
+
+    # ---- re-determining a block's target on the fly ---------------------------------------------------
+    def retarget(self, rt):
+        """ExpansionData.determineTargetComponent(b, flag) is the public way to (re)determine a target; it documents
+        that the result is also stored on the block for later retrieval."""
+        out, m = self.out, self.model
+        i = rt[0] % m.nb
+        name = m.solids[i][rt[1] % len(m.solids[i])]
+        comp = self.comp(i, name)
+        ch = self.Changer(detailedAxialExpansion=self.case["detailed"])
+        ch.setAssembly(self.a)
+        got = ch.expansionData.determineTargetComponent(self.a[i], comp.p.flags)
+        out.label("retarget:same" if name == m.targets[i] else "retarget:changed")
+        out.check(got is comp and ch.expansionData.isTargetComponent(comp), "c12/target/redetermined-wrong-component",
+                  lambda: "block %d: determineTargetComponent(%s) returned %r, expected %s" % (i, comp.p.flags, got, name))
+        rec = self.a[i].p.axialExpTargetComponent or None
+        out.check(rec == name, "c12/target/redetermined-not-recorded",
+                  lambda: "block %d (%s): target re-determined to %r but the block records %r" % (i, self.blocks[i]["kind"], name, rec))
+        self.blocks[i]["target"] = name
+        m.targets[i] = name
+        self.sw = None  # a step-wise caller has to call setAssembly again to pick the new designation up
 
     # ---- armi's refusal of a change that would give a block a negative height ------------------------
     def probe_refusal(self, step, listed, newh):
@@ -571,6 +654,8 @@ class Run:
         out = self.out
         if step.get("swap") is not None:
             self.swap(step["swap"])
+        if step.get("retarget") is not None:
+            self.retarget(step["retarget"])
         m = self.model
         if step["kind"] == "prescribed":
             listed = self.prescribed_growth(step)
@@ -690,7 +775,9 @@ def _execute(case, exclude):
     out.label("build:" + spec["build"], "blocks:%d" % (run.model.nb + 1))
     out.label("targets:explicit" if any(b["explicit"] for b in run.blocks) else "targets:auto")
     out.label("materials:single" if spec["single"] else "materials:mixed")
-    if any(v == "<multiple>" for v in run.model.links.values()):
+    if run.rule != "stock":
+        out.label("hook:" + run.rule)
+    if gen.ambiguous(run.blocks, run.rule):
         raise AssertionError("C12 harness: generator produced an ambiguous linkage")
     for step in case["steps"][:MAX_STEPS]:
         if not run.step(step):
@@ -702,6 +789,102 @@ def _execute(case, exclude):
     return out
 
 
+# --------------------------------------------------------------------------------------------
+# core-level path: the reference assembly is expanded, the others follow its mesh (manageCoreMesh)
+
+ASSEM_TYPES = ["fuel", "feed fuel", "igniter fuel", "driver", "lead test assembly", "test"]
+
+
+def core_strategy(tier):
+    step = _step(["prescribed"], ["component", "block", "all", "subset"])
+    return st.fixed_dictionaries(
+        {
+            "asm": gen.asm_spec(),
+            "refType": st.sampled_from(ASSEM_TYPES),
+            "followers": st.lists(st.sampled_from(ASSEM_TYPES), min_size=1, max_size=3),
+            "steps": st.lists(step, min_size=1, max_size=3),
+        }
+    )
+
+
+class _Core:
+    """The attributes of r.core that AxialExpansionChanger.manageCoreMesh uses."""
+
+    def __init__(self, ref, assems):
+        self.refAssem = ref
+        self._assems = assems
+        self.p = type("P", (), {"axialMesh": None})()
+
+    def getAssemblies(self):
+        return list(self._assems)
+
+    def updateAxialMesh(self):
+        self.p.axialMesh = list(self.refAssem.getAxialMesh())
+
+
+def core_execute(case):
+    """detailedAxialExpansion off: expand the reference assembly, then manageCoreMesh snaps every assembly to the
+    reference mesh with setBlockMesh(refMesh, conserveMassFlag="auto").  Oracle: the reference keeps all clauses; every
+    follower ends on the reference mesh (contiguous, positive, bounds, total height) and, per setBlockMesh's documented
+    rules, each fuel block conserves the mass of its fuel (the block's target) whatever the assembly is called, and
+    in a fuel-flagged assembly the solids of the blocks below the fuel column conserve their mass."""
+    from armi.reactor.flags import Flags
+
+    case = dict(case, asm=dict(case["asm"], build="direct"), detailed=False, hook=None)
+    run = Run(case, True)
+    out = run.out
+    run.a.setType(case["refType"])
+    followers = [gen.build_direct(run.blocks, atype=t) for t in case["followers"]]
+    everyone = [run.a] + followers
+    for a in everyone:
+        a.makeAxialSnapList(run.a)
+    core = _Core(run.a, everyone)
+    r = type("R", (), {"core": core})()
+    m = run.model
+    tol = run.tol
+    out.label("ref:" + case["refType"])
+    for step in case["steps"]:
+        before_applied = run.applied
+        if not run.step(dict(step, swap=None, probe=False, retarget=None, fresh=False)):
+            break
+        if run.applied == before_applied:
+            continue
+        pre = [_snapshot(f) for f in followers]
+        old_h = [[float(b.getHeight()) for b in f] for f in followers]
+        run.changer.manageCoreMesh(r)
+        ref_tops = [float(b.p.ztop) for b in run.a]
+        out.check(core.p.axialMesh is not None and all(abs(x - y) <= tol for x, y in zip(core.p.axialMesh, ref_tops)),
+                  "c12/core-mesh/core-axial-mesh", "core axial mesh not the reference mesh")
+        for fi, f in enumerate(followers):
+            where = "follower %d (%s) after %d reference changes" % (fi, case["followers"][fi], run.applied)
+            out.label("follower:" + ("fuel-typed" if f.hasFlags(Flags.FUEL) else "not-fuel-typed"))
+            tops = [float(b.p.ztop) for b in f]
+            bounds = [float(x) for x in f.spatialGrid._bounds[2]]
+            ok = len(tops) == len(ref_tops) and all(abs(x - y) <= tol for x, y in zip(tops, ref_tops))
+            ok = ok and all(abs(float(b.p.zbottom) - z) <= tol for b, z in zip(f, [0.0] + tops[:-1]))
+            ok = ok and all(float(b.p.height) > 0.0 and abs(float(b.p.height) - (float(b.p.ztop) - float(b.p.zbottom))) <= tol for b in f)
+            ok = ok and len(bounds) == len(tops) + 1 and all(abs(x - y) <= tol for x, y in zip(bounds, [0.0] + tops))
+            out.check(ok and abs(float(f.getTotalHeight()) - run.L0) <= tol, "c12/core-mesh/follower-not-on-reference-mesh",
+                      lambda: "%s: tops %s bounds %s, reference tops %s" % (where, tops, bounds, ref_tops))
+            below_fuel = True
+            for i in range(m.nb):
+                kind = run.blocks[i]["kind"]
+                if kind == "fuel":
+                    below_fuel = False
+                for name in m.solids[i]:
+                    old = pre[fi]["comp"][(i, name)]["mass"]
+                    new = float(f[i].getComponentByName(name).getMass())
+                    if kind == "fuel" and name == "fuel":
+                        out.check(_rel_close(new, old), "c12/core-mesh/fuel-block-fuel-mass-not-conserved",
+                                  lambda: "%s: block %d fuel mass %r -> %r (x %.12g), block height %r -> %r"
+                                  % (where, i, old, new, new / old, old_h[fi][i], float(f[i].getHeight())))
+                    elif kind != "fuel" and below_fuel and f.hasFlags(Flags.FUEL):
+                        out.check(_rel_close(new, old), "c12/core-mesh/below-fuel-structure-mass-not-conserved",
+                                  lambda: "%s: block %d (%s) %s mass %r -> %r (x %.12g)" % (where, i, kind, name, old, new, new / old))
+    out.nontrivial = run.applied >= 1 and run.diff_growth and any(b["kind"] == "fuel" for b in run.blocks)
+    return out
+
+
 def main_execute(case):
     return _execute(case, bool(EXCLUDE_KNOWN.get(SIG_KNOWN)))
 
@@ -709,6 +892,16 @@ def main_execute(case):
 def known_execute(case):
     return _execute(case, False)
 
+
+PARTS_EXTRA = [
+    Part("core_mesh", core_execute, strategy=core_strategy, budget={"quick": 240, "thorough": 6000}, procs={"quick": 4, "thorough": 8},
+         rule="Hypothesis: a reference assembly and 1-3 follower assemblies of the same design with assembly type names with and "
+              "without the fuel flag (fuel, feed fuel, igniter fuel, driver, lead test assembly, test), snap lists made; 1-3 "
+              "prescribed changes of the reference (all clauses), each followed by AxialExpansionChanger.manageCoreMesh "
+              "(setBlockMesh(refMesh, 'auto') on every assembly). Oracle: followers on the reference mesh (contiguous, positive, "
+              "bounds, total height); fuel blocks conserve their fuel (target) mass whatever the assembly type; below-fuel "
+              "structure conserved in fuel-typed assemblies. Non-trivial = a fuel block and two blocks with different target growth"),
+]
 
 PARTS = [
     Part("histories", main_execute, strategy=main_strategy, budget={"quick": 1200, "thorough": 40000},
@@ -733,3 +926,4 @@ PARTS = [
               "grow differently from the fuel (the known finding's shape is NOT excluded); same oracle; keeps the known finding "
               "observed. Non-trivial as above"),
 ]
+PARTS += PARTS_EXTRA
